@@ -1,18 +1,1147 @@
+// Family c05: alternative cryptographic backends agree.
+//
+//	BLAKE2b F : blake2b.F / the 0x09 precompile forced through fAVX2, fAVX, fSSE4 and
+//	            fGeneric (crypto/blake2b/verif_export_c05.go) vs coq/Crypto/Blake2b.v
+//	BN254     : 0x06/0x07/0x08 precompiles and the gnark, cloudflare and google backends
+//	            (three-way diff) vs coq/Crypto/Bn254.v (decoding, G1 add/mul results)
+//	KZG       : kzg4844 (go-eth-kzg) vs c-kzg-4844 (cgo, when it links) — differential;
+//	            coq/Crypto/KzgInput.v contributes the syntactic must-reject classes
 package main
 
 import (
+	"bytes"
+	"encoding/binary"
 	"fmt"
+	"math/big"
+	"strings"
 
-	ckzg4844 "github.com/ethereum/c-kzg-4844/v2/bindings/go"
+	. "gethverif/harness/hxlib"
+	gnarkbn "github.com/consensys/gnark-crypto/ecc/bn254"
+	"github.com/consensys/gnark-crypto/ecc/bn254/fp"
+	"github.com/ethereum/go-ethereum/common"
+	"github.com/ethereum/go-ethereum/core/vm"
 	"github.com/ethereum/go-ethereum/crypto/blake2b"
+	cloudflare "github.com/ethereum/go-ethereum/crypto/bn256/cloudflare"
+	gnark "github.com/ethereum/go-ethereum/crypto/bn256/gnark"
+	google "github.com/ethereum/go-ethereum/crypto/bn256/google"
 	"github.com/ethereum/go-ethereum/crypto/kzg4844"
 )
 
+func cp(b []byte) []byte { return append([]byte{}, b...) }
+
+func precompile(n byte) vm.PrecompiledContract {
+	return vm.PrecompiledContractsCancun[common.BytesToAddress([]byte{n})]
+}
+
+// safely runs f, mapping a panic to an error text
+func safe(f func()) (pan string) {
+	defer func() {
+		if e := recover(); e != nil {
+			pan = fmt.Sprint(e)
+		}
+	}()
+	f()
+	return ""
+}
+
+// ---------------------------------------------------------------- BLAKE2b
+
+type blakePath struct {
+	name            string
+	avx2, avx, sse4 bool
+}
+
+var hwAVX2, hwAVX, hwSSE4 = blake2b.VerifGetFlags()
+
+// the implementations this CPU can execute
+func blakePaths() []blakePath {
+	var ps []blakePath
+	if hwAVX2 {
+		ps = append(ps, blakePath{"avx2", true, hwAVX, hwSSE4})
+	}
+	if hwAVX {
+		ps = append(ps, blakePath{"avx", false, true, hwSSE4})
+	}
+	if hwSSE4 {
+		ps = append(ps, blakePath{"sse4", false, false, true})
+	}
+	ps = append(ps, blakePath{"generic", false, false, false})
+	return ps
+}
+
+func withPath(p blakePath, f func()) {
+	defer blake2b.VerifSetFlags(hwAVX2, hwAVX, hwSSE4)
+	blake2b.VerifSetFlags(p.avx2, p.avx, p.sse4)
+	f()
+}
+
+func blakeClass(err error) int64 {
+	switch {
+	case strings.Contains(err.Error(), "length"):
+		return 1
+	case strings.Contains(err.Error(), "final flag"):
+		return 2
+	}
+	return 7
+}
+
+func resObs(out []byte, err error, class func(error) int64) Sx {
+	if err != nil {
+		return L(I(1), I(class(err)))
+	}
+	return L(I(0), B(out))
+}
+
+func runBlakePrecompile(input []byte) Result {
+	res := Result{}
+	var fails []string
+	pc := precompile(9)
+	out0, err0 := pc.Run(cp(input))
+	res.Obs = resObs(out0, err0, blakeClass)
+	// the property: every executable path gives the same bytes / the same decision
+	for _, p := range blakePaths() {
+		var out []byte
+		var err error
+		if pan := safe(func() { withPath(p, func() { out, err = pc.Run(cp(input)) }) }); pan != "" {
+			fails = append(fails, "panic on path "+p.name+": "+pan)
+			continue
+		}
+		if (err == nil) != (err0 == nil) || !bytes.Equal(out, out0) {
+			fails = append(fails, fmt.Sprintf("path %s gives %x/%v, default path gives %x/%v", p.name, out, err, out0, err0))
+		}
+		res.Tags = append(res.Tags, "blake-"+p.name)
+	}
+	wantOK := len(input) == 213 && input[212] <= 1
+	if wantOK != (err0 == nil) {
+		fails = append(fails, "blake2F input validation: accepted/rejected wrongly")
+	}
+	if err0 == nil {
+		if len(out0) != 64 {
+			fails = append(fails, "blake2F output is not 64 bytes")
+		}
+		// the generic reference called directly must agree as well
+		var h [8]uint64
+		var m [16]uint64
+		for i := range h {
+			h[i] = binary.LittleEndian.Uint64(input[4+8*i:])
+		}
+		for i := range m {
+			m[i] = binary.LittleEndian.Uint64(input[68+8*i:])
+		}
+		var flag uint64
+		if input[212] == 1 {
+			flag = ^uint64(0)
+		}
+		rounds := binary.BigEndian.Uint32(input[0:4])
+		blake2b.VerifFGeneric(&h, &m, binary.LittleEndian.Uint64(input[196:]), binary.LittleEndian.Uint64(input[204:]), flag, uint64(rounds))
+		ref := make([]byte, 64)
+		for i := range h {
+			binary.LittleEndian.PutUint64(ref[8*i:], h[i])
+		}
+		if !bytes.Equal(ref, out0) {
+			fails = append(fails, fmt.Sprintf("fGeneric gives %x, precompile gives %x", ref, out0))
+		}
+		res.NonTrivial = true
+		switch {
+		case rounds == 0:
+			res.Tags = append(res.Tags, "rounds0")
+		case rounds <= 12:
+			res.Tags = append(res.Tags, fmt.Sprintf("rounds%d", rounds))
+		case rounds < 1<<12:
+			res.Tags = append(res.Tags, "rounds<2^12")
+		case rounds < 1<<16:
+			res.Tags = append(res.Tags, "rounds<2^16")
+		default:
+			res.Tags = append(res.Tags, "rounds>=2^16")
+		}
+		res.Tags = append(res.Tags, fmt.Sprintf("final%d", input[212]))
+	} else {
+		res.Tags = append(res.Tags, fmt.Sprintf("blake-reject%d", blakeClass(err0)))
+	}
+	if len(fails) > 0 {
+		res.Oracle = strings.Join(fails, "; ")
+	}
+	return res
+}
+
+func runBlakeDirect(l []Sx) Result {
+	res := Result{Tags: []string{"blake-direct"}}
+	hs, ms := AsList(l[1]), AsList(l[2])
+	if len(hs) != 8 || len(ms) != 16 {
+		panic("hxlib: blake direct case needs 8 + 16 words")
+	}
+	var h [8]uint64
+	var m [16]uint64
+	for i := range h {
+		h[i] = AsBig(hs[i]).Uint64()
+	}
+	for i := range m {
+		m[i] = AsBig(ms[i]).Uint64()
+	}
+	c0, c1, flag, rounds := AsBig(l[3]).Uint64(), AsBig(l[4]).Uint64(), AsBig(l[5]).Uint64(), AsBig(l[6]).Uint64()
+	hg := h
+	blake2b.VerifFGeneric(&hg, &m, c0, c1, flag, rounds)
+	out := make([]Sx, 8)
+	for i := range hg {
+		out[i] = U(hg[i])
+	}
+	res.Obs = L(I(0), L(out...))
+	res.NonTrivial = true
+	var fails []string
+	if rounds >= 1<<63 {
+		res.Tags = append(res.Tags, "rounds>=2^63")
+	}
+	// where the exported F can express the call, every path must give the same words
+	if (flag == 0 || flag == ^uint64(0)) && rounds < 1<<22 {
+		for _, p := range blakePaths() {
+			hp := h
+			withPath(p, func() { blake2b.F(&hp, m, [2]uint64{c0, c1}, flag != 0, uint32(rounds)) })
+			if hp != hg {
+				fails = append(fails, fmt.Sprintf("F on path %s gives %x, fGeneric gives %x", p.name, hp, hg))
+			}
+		}
+		res.Tags = append(res.Tags, "blake-direct-allpaths")
+	}
+	if len(fails) > 0 {
+		res.Oracle = strings.Join(fails, "; ")
+	}
+	return res
+}
+
+// ---------------------------------------------------------------- BN254
+
+// error class of a decoding error, per backend wording: 1 size, 2 coordinate >= p,
+// 3 not on curve, 4 not in the subgroup (gnark only; the others report 3), 7 unknown
+func bnClass(err error) int64 {
+	s := err.Error()
+	switch {
+	case strings.Contains(s, "size"), strings.Contains(s, "not enough data"), strings.Contains(s, "bad elliptic curve pairing size"):
+		return 1
+	case strings.Contains(s, "invalid fp.Element encoding"), strings.Contains(s, "coordinate exceeds modulus"), strings.Contains(s, "coordinate equals modulus"):
+		return 2
+	case strings.Contains(s, "not on curve"), strings.Contains(s, "malformed point"):
+		return 3
+	case strings.Contains(s, "subgroup"):
+		return 4
+	}
+	return 7
+}
+
+func getData(data []byte, start, size int) []byte {
+	if start > len(data) {
+		start = len(data)
+	}
+	end := start + size
+	if end > len(data) {
+		end = len(data)
+	}
+	out := make([]byte, size)
+	copy(out, data[start:end])
+	return out
+}
+
+type bnBackend struct {
+	name    string
+	decG1   func(b []byte) (interface{}, error)
+	decG2   func(b []byte) (interface{}, error)
+	encG1   func(p interface{}) []byte
+	encG2   func(p interface{}) []byte
+	add     func(a, b interface{}) []byte
+	mul     func(a interface{}, k *big.Int) []byte
+	pairing func(g1s, g2s []interface{}) bool
+}
+
+var bnBackends = []bnBackend{
+	{
+		name:  "gnark",
+		decG1: func(b []byte) (interface{}, error) { p := new(gnark.G1); _, err := p.Unmarshal(b); return p, err },
+		decG2: func(b []byte) (interface{}, error) { p := new(gnark.G2); _, err := p.Unmarshal(b); return p, err },
+		encG1: func(p interface{}) []byte { return p.(*gnark.G1).Marshal() },
+		encG2: func(p interface{}) []byte { return p.(*gnark.G2).Marshal() },
+		add: func(a, b interface{}) []byte {
+			r := new(gnark.G1)
+			r.Add(a.(*gnark.G1), b.(*gnark.G1))
+			return r.Marshal()
+		},
+		mul: func(a interface{}, k *big.Int) []byte {
+			r := new(gnark.G1)
+			r.ScalarMult(a.(*gnark.G1), k)
+			return r.Marshal()
+		},
+		pairing: func(g1s, g2s []interface{}) bool {
+			var a []*gnark.G1
+			var b []*gnark.G2
+			for i := range g1s {
+				a = append(a, g1s[i].(*gnark.G1))
+				b = append(b, g2s[i].(*gnark.G2))
+			}
+			return gnark.PairingCheck(a, b)
+		},
+	},
+	{
+		name:  "cloudflare",
+		decG1: func(b []byte) (interface{}, error) { p := new(cloudflare.G1); _, err := p.Unmarshal(b); return p, err },
+		decG2: func(b []byte) (interface{}, error) { p := new(cloudflare.G2); _, err := p.Unmarshal(b); return p, err },
+		encG1: func(p interface{}) []byte { return p.(*cloudflare.G1).Marshal() },
+		encG2: func(p interface{}) []byte { return p.(*cloudflare.G2).Marshal() },
+		add: func(a, b interface{}) []byte {
+			r := new(cloudflare.G1)
+			r.Add(a.(*cloudflare.G1), b.(*cloudflare.G1))
+			return r.Marshal()
+		},
+		mul: func(a interface{}, k *big.Int) []byte {
+			r := new(cloudflare.G1)
+			r.ScalarMult(a.(*cloudflare.G1), k)
+			return r.Marshal()
+		},
+		pairing: func(g1s, g2s []interface{}) bool {
+			var a []*cloudflare.G1
+			var b []*cloudflare.G2
+			for i := range g1s {
+				a = append(a, g1s[i].(*cloudflare.G1))
+				b = append(b, g2s[i].(*cloudflare.G2))
+			}
+			return cloudflare.PairingCheck(a, b)
+		},
+	},
+	{
+		name:  "google",
+		decG1: func(b []byte) (interface{}, error) { p := new(google.G1); _, err := p.Unmarshal(b); return p, err },
+		decG2: func(b []byte) (interface{}, error) { p := new(google.G2); _, err := p.Unmarshal(b); return p, err },
+		encG1: func(p interface{}) []byte { return p.(*google.G1).Marshal() },
+		encG2: func(p interface{}) []byte { return p.(*google.G2).Marshal() },
+		add: func(a, b interface{}) []byte {
+			r := new(google.G1)
+			r.Add(a.(*google.G1), b.(*google.G1))
+			return r.Marshal()
+		},
+		mul: func(a interface{}, k *big.Int) []byte {
+			r := new(google.G1)
+			r.ScalarMult(a.(*google.G1), k)
+			return r.Marshal()
+		},
+		pairing: func(g1s, g2s []interface{}) bool {
+			var a []*google.G1
+			var b []*google.G2
+			for i := range g1s {
+				a = append(a, g1s[i].(*google.G1))
+				b = append(b, g2s[i].(*google.G2))
+			}
+			return google.PairingCheck(a, b)
+		},
+	},
+}
+
+type bnOut struct {
+	out   []byte
+	class int64 // 0 = accepted
+	pan   string
+}
+
+func (o bnOut) String() string {
+	if o.pan != "" {
+		return "panic:" + o.pan
+	}
+	if o.class != 0 {
+		return fmt.Sprintf("reject(%d)", o.class)
+	}
+	return fmt.Sprintf("%x", o.out)
+}
+
+// the three precompile bodies of contracts.go, re-expressed over one backend
+func bnRun(be bnBackend, op int, input []byte) (o bnOut) {
+	o.pan = safe(func() {
+		switch op {
+		case 2:
+			x, err := be.decG1(getData(input, 0, 64))
+			if err != nil {
+				o.class = bnClass(err)
+				return
+			}
+			y, err := be.decG1(getData(input, 64, 64))
+			if err != nil {
+				o.class = bnClass(err)
+				return
+			}
+			o.out = be.add(x, y)
+		case 3:
+			x, err := be.decG1(getData(input, 0, 64))
+			if err != nil {
+				o.class = bnClass(err)
+				return
+			}
+			o.out = be.mul(x, new(big.Int).SetBytes(getData(input, 64, 32)))
+		case 4:
+			if len(input)%192 != 0 {
+				o.class = 1
+				return
+			}
+			var g1s, g2s []interface{}
+			for i := 0; i < len(input); i += 192 {
+				c, err := be.decG1(input[i : i+64])
+				if err != nil {
+					o.class = bnClass(err)
+					return
+				}
+				t, err := be.decG2(input[i+64 : i+192])
+				if err != nil {
+					o.class = bnClass(err)
+					return
+				}
+				g1s = append(g1s, c)
+				g2s = append(g2s, t)
+			}
+			o.out = make([]byte, 32)
+			if be.pairing(g1s, g2s) {
+				o.out[31] = 1
+			}
+		}
+	})
+	return
+}
+
+// classes 3 and 4 are one class for cloudflare/google G2 decoding
+func lump(c int64) int64 {
+	if c == 4 {
+		return 3
+	}
+	return c
+}
+
+func runBn(op int, input []byte, withResult bool) Result {
+	res := Result{}
+	var fails []string
+	names := map[int]string{2: "bnadd", 3: "bnmul", 4: "bnpair"}
+	// the real precompile (gnark on amd64/arm64, google elsewhere)
+	var pout []byte
+	var perr error
+	if pan := safe(func() { pout, perr = precompile(byte(op + 4)).Run(cp(input)) }); pan != "" {
+		fails = append(fails, "precompile panicked: "+pan)
+	}
+	outs := make([]bnOut, len(bnBackends))
+	for i, be := range bnBackends {
+		outs[i] = bnRun(be, op, cp(input))
+		if outs[i].pan != "" {
+			fails = append(fails, be.name+" panicked: "+outs[i].pan)
+		}
+	}
+	for i := 1; i < len(outs); i++ {
+		if (outs[i].class == 0) != (outs[0].class == 0) || !bytes.Equal(outs[i].out, outs[0].out) || lump(outs[i].class) != lump(outs[0].class) {
+			fails = append(fails, fmt.Sprintf("%s: %v but %s: %v", bnBackends[0].name, outs[0], bnBackends[i].name, outs[i]))
+		}
+	}
+	if (perr == nil) != (outs[0].class == 0) || !bytes.Equal(pout, outs[0].out) {
+		fails = append(fails, fmt.Sprintf("precompile gives %x/%v, backend %s gives %v", pout, perr, bnBackends[0].name, outs[0]))
+	}
+	// observables, from the real precompile
+	switch {
+	case op == 4:
+		// the modelled decision: first size/coordinate/curve failure in input order;
+		// a subgroup failure is not modelled and does not stop the scan
+		obs := L(I(0))
+		if len(input)%192 != 0 {
+			obs = L(I(1), I(1))
+		} else {
+			be := bnBackends[0]
+		scan:
+			for i := 0; i < len(input); i += 192 {
+				if _, err := be.decG1(input[i : i+64]); err != nil {
+					obs = L(I(1), I(bnClass(err)))
+					break scan
+				}
+				if _, err := be.decG2(input[i+64 : i+192]); err != nil && bnClass(err) != 4 {
+					obs = L(I(1), I(bnClass(err)))
+					break scan
+				} else if err != nil {
+					res.Tags = append(res.Tags, "g2-not-in-subgroup")
+				}
+			}
+		}
+		res.Obs = obs
+		if perr == nil {
+			res.Tags = append(res.Tags, fmt.Sprintf("pairing-result%d-pairs%d", pout[31], min(len(input)/192, 4)))
+			res.NonTrivial = len(input) > 0
+		}
+	case !withResult:
+		if perr != nil {
+			res.Obs = L(I(1), I(bnClass(perr)))
+		} else {
+			res.Obs = L(I(0))
+			res.NonTrivial = true
+		}
+	default:
+		res.Obs = resObs(pout, perr, bnClass)
+		res.NonTrivial = perr == nil
+	}
+	if perr != nil {
+		res.Tags = append(res.Tags, fmt.Sprintf("%s-reject%d", names[op], bnClass(perr)))
+	} else {
+		res.Tags = append(res.Tags, names[op]+"-ok")
+		if op != 4 && bytes.Equal(pout, make([]byte, 64)) {
+			res.Tags = append(res.Tags, names[op]+"-infinity")
+		}
+		if op == 3 {
+			k := new(big.Int).SetBytes(getData(input, 64, 32))
+			switch {
+			case k.BitLen() <= 16:
+				res.Tags = append(res.Tags, "scalar<=16bit")
+			case k.Cmp(bnOrder) >= 0:
+				res.Tags = append(res.Tags, "scalar>=order")
+			default:
+				res.Tags = append(res.Tags, "scalar-big")
+			}
+		}
+		if op != 4 {
+			// results must be valid encodings again
+			for _, be := range bnBackends {
+				if _, err := be.decG1(pout); err != nil {
+					fails = append(fails, "result does not decode with "+be.name)
+				}
+			}
+		}
+	}
+	if !withResult && op == 3 {
+		res.Tags = append(res.Tags, "bnmul-differential-only")
+	}
+	if len(fails) > 0 {
+		res.Oracle = strings.Join(fails, "; ")
+	}
+	return res
+}
+
+func runBnDecode(g2 bool, buf []byte) Result {
+	res := Result{}
+	var fails []string
+	type dec struct {
+		class int64
+		enc   []byte
+		pan   string
+	}
+	ds := make([]dec, len(bnBackends))
+	for i, be := range bnBackends {
+		d := &ds[i]
+		d.pan = safe(func() {
+			var p interface{}
+			var err error
+			if g2 {
+				p, err = be.decG2(cp(buf))
+			} else {
+				p, err = be.decG1(cp(buf))
+			}
+			if err != nil {
+				d.class = bnClass(err)
+				return
+			}
+			if g2 {
+				d.enc = be.encG2(p)
+			} else {
+				d.enc = be.encG1(p)
+			}
+		})
+		if d.pan != "" {
+			fails = append(fails, be.name+" panicked: "+d.pan)
+		}
+	}
+	for i := 1; i < len(ds); i++ {
+		if lump(ds[i].class) != lump(ds[0].class) || !bytes.Equal(ds[i].enc, ds[0].enc) {
+			fails = append(fails, fmt.Sprintf("%s: class %d enc %x but %s: class %d enc %x", bnBackends[0].name, ds[0].class, ds[0].enc, bnBackends[i].name, ds[i].class, ds[i].enc))
+		}
+	}
+	d := ds[0]
+	n := 64
+	kind := "g1dec"
+	if g2 {
+		n, kind = 128, "g2dec"
+	}
+	if d.class == 0 {
+		if len(buf) >= n && !bytes.Equal(d.enc, buf[:n]) {
+			fails = append(fails, "Marshal(Unmarshal(b)) != b")
+		}
+		res.NonTrivial = true
+	}
+	switch {
+	case !g2 && d.class == 0:
+		res.Obs = L(I(0), B(d.enc))
+	case !g2:
+		res.Obs = L(I(1), I(d.class))
+	case d.class == 0 && bytes.Equal(d.enc, make([]byte, 128)):
+		res.Obs = L(I(0), I(0))
+	case d.class == 0 || d.class == 4:
+		res.Obs = L(I(0), I(1))
+	default:
+		res.Obs = L(I(1), I(d.class))
+	}
+	res.Tags = append(res.Tags, fmt.Sprintf("%s-class%d", kind, d.class))
+	if len(fails) > 0 {
+		res.Oracle = strings.Join(fails, "; ")
+	}
+	return res
+}
+
+// ---------------------------------------------------------------- KZG
+
+var blsR, _ = new(big.Int).SetString("52435875175126190479447740508185965837690552500527637822603658699938581184513", 10)
+var blsP, _ = new(big.Int).SetString("4002409555221667393417789825735904156556882819939007885332058136124031650490837864442687629129015664037894272559787", 10)
+var bnOrder, _ = new(big.Int).SetString("21888242871839275222246405745257275088548364400416034343698204186575808495617", 10)
+var bnP, _ = new(big.Int).SetString("21888242871839275222246405745257275088696311157297823662689037894645226208583", 10)
+
+func feCanonical(b []byte) bool { return len(b) == 32 && new(big.Int).SetBytes(b).Cmp(blsR) < 0 }
+
+func g1cWellformed(b []byte) bool {
+	if len(b) != 48 {
+		return false
+	}
+	if b[0]&0x80 == 0 {
+		return false
+	}
+	if b[0]&0x40 != 0 {
+		return b[0] == 0xc0 && bytes.Equal(b[1:], make([]byte, 47))
+	}
+	x := cp(b)
+	x[0] &= 0x1f
+	return new(big.Int).SetBytes(x).Cmp(blsP) < 0
+}
+
+func blobCanonical(b []byte) bool {
+	if len(b) != 131072 {
+		return false
+	}
+	for i := 0; i < len(b); i += 32 {
+		if !feCanonical(b[i : i+32]) {
+			return false
+		}
+	}
+	return true
+}
+
+// outcome of one KZG call on one backend: accepted + output bytes, or rejected
+type kzgOut struct {
+	ok  bool
+	out []byte
+	pan string
+}
+
+func (o kzgOut) String() string {
+	if o.pan != "" {
+		return "panic:" + o.pan
+	}
+	if !o.ok {
+		return "reject"
+	}
+	return fmt.Sprintf("ok:%x", o.out)
+}
+
+type kzgBackend struct {
+	name          string
+	verifyProof   func(c kzg4844.Commitment, z kzg4844.Point, y kzg4844.Claim, p kzg4844.Proof) error
+	verifyBlob    func(b *kzg4844.Blob, c kzg4844.Commitment, p kzg4844.Proof) error
+	toCommitment  func(b *kzg4844.Blob) (kzg4844.Commitment, error)
+	computeProof  func(b *kzg4844.Blob, z kzg4844.Point) (kzg4844.Proof, kzg4844.Claim, error)
+	computeBProof func(b *kzg4844.Blob, c kzg4844.Commitment) (kzg4844.Proof, error)
+}
+
+var gokzgBackend = kzgBackend{
+	name:          "gokzg",
+	verifyProof:   kzg4844.VerifyProof,
+	verifyBlob:    kzg4844.VerifyBlobProof,
+	toCommitment:  kzg4844.BlobToCommitment,
+	computeProof:  kzg4844.ComputeProof,
+	computeBProof: kzg4844.ComputeBlobProof,
+}
+
+func kzgBackends() []kzgBackend {
+	bs := []kzgBackend{gokzgBackend}
+	if b, ok := ckzgBackend(); ok {
+		bs = append(bs, b)
+	}
+	return bs
+}
+
+func runKzg(kind int, l []Sx) Result {
+	res := Result{}
+	var fails []string
+	var class int64
+	bs := kzgBackends()
+	outs := make([]kzgOut, len(bs))
+	need := func(i, n int) []byte {
+		b := AsBytes(l[i])
+		if len(b) != n {
+			panic("hxlib: kzg case field has the wrong size")
+		}
+		return b
+	}
+	switch kind {
+	case 7:
+		c, z, y, p := need(1, 48), need(2, 32), need(3, 32), need(4, 48)
+		switch {
+		case !g1cWellformed(c):
+			class = 1
+		case !feCanonical(z):
+			class = 2
+		case !feCanonical(y):
+			class = 3
+		case !g1cWellformed(p):
+			class = 4
+		}
+		for i, be := range bs {
+			o := &outs[i]
+			o.pan = safe(func() {
+				o.ok = be.verifyProof(kzg4844.Commitment(c), kzg4844.Point(z), kzg4844.Claim(y), kzg4844.Proof(p)) == nil
+			})
+		}
+		res.Tags = append(res.Tags, "kzg-verifyproof")
+	case 8:
+		b, c, p := need(1, 131072), need(2, 48), need(3, 48)
+		switch {
+		case !blobCanonical(b):
+			class = 6
+		case !g1cWellformed(c):
+			class = 1
+		case !g1cWellformed(p):
+			class = 4
+		}
+		blob := new(kzg4844.Blob)
+		copy(blob[:], b)
+		for i, be := range bs {
+			o := &outs[i]
+			o.pan = safe(func() { o.ok = be.verifyBlob(blob, kzg4844.Commitment(c), kzg4844.Proof(p)) == nil })
+		}
+		res.Tags = append(res.Tags, "kzg-verifyblob")
+	case 9:
+		b := need(1, 131072)
+		if !blobCanonical(b) {
+			class = 6
+		}
+		blob := new(kzg4844.Blob)
+		copy(blob[:], b)
+		for i, be := range bs {
+			o := &outs[i]
+			o.pan = safe(func() {
+				c, err := be.toCommitment(blob)
+				o.ok, o.out = err == nil, c[:]
+			})
+		}
+		res.Tags = append(res.Tags, "kzg-commit")
+	case 10:
+		b, z := need(1, 131072), need(2, 32)
+		switch {
+		case !blobCanonical(b):
+			class = 6
+		case !feCanonical(z):
+			class = 2
+		}
+		blob := new(kzg4844.Blob)
+		copy(blob[:], b)
+		for i, be := range bs {
+			o := &outs[i]
+			o.pan = safe(func() {
+				p, y, err := be.computeProof(blob, kzg4844.Point(z))
+				o.ok, o.out = err == nil, append(p[:], y[:]...)
+				if err == nil {
+					// a computed proof must verify against the commitment
+					c, err2 := be.toCommitment(blob)
+					if err2 != nil || be.verifyProof(c, kzg4844.Point(z), y, p) != nil {
+						fails = append(fails, be.name+": ComputeProof output does not verify")
+					}
+				}
+			})
+		}
+		res.Tags = append(res.Tags, "kzg-computeproof")
+	}
+	for i := range outs {
+		if outs[i].pan != "" {
+			fails = append(fails, bs[i].name+" panicked: "+outs[i].pan)
+		}
+		if !outs[i].ok {
+			outs[i].out = nil
+		}
+		if i > 0 && (outs[i].ok != outs[0].ok || !bytes.Equal(outs[i].out, outs[0].out)) {
+			fails = append(fails, fmt.Sprintf("%s: %v but %s: %v", bs[0].name, outs[0], bs[i].name, outs[i]))
+		}
+		if class != 0 && outs[i].ok {
+			fails = append(fails, fmt.Sprintf("%s accepted a non-canonical input (class %d)", bs[i].name, class))
+		}
+	}
+	if outs[0].ok {
+		res.Obs = L(I(0))
+		res.Tags = append(res.Tags, "kzg-accept")
+	} else {
+		res.Obs = L(I(class))
+		res.Tags = append(res.Tags, fmt.Sprintf("kzg-reject-class%d", class))
+	}
+	res.Tags = append(res.Tags, fmt.Sprintf("kzg-backends%d", len(bs)))
+	res.NonTrivial = len(bs) > 1 || outs[0].ok
+	if len(fails) > 0 {
+		res.Oracle = strings.Join(fails, "; ")
+	}
+	return res
+}
+
+// ---------------------------------------------------------------- dispatch
+
+func run(c Sx) Result {
+	l := AsList(c)
+	kind := int(AsInt(l[0]))
+	switch kind {
+	case 0:
+		return runBlakePrecompile(AsBytes(l[1]))
+	case 1:
+		if len(l) != 7 {
+			panic("hxlib: blake direct case shape")
+		}
+		return runBlakeDirect(l)
+	case 2, 3, 4:
+		return runBn(kind, AsBytes(l[1]), true)
+	case 11:
+		return runBn(3, AsBytes(l[1]), false)
+	case 5:
+		return runBnDecode(false, AsBytes(l[1]))
+	case 6:
+		return runBnDecode(true, AsBytes(l[1]))
+	case 7, 8, 9, 10:
+		return runKzg(kind, l)
+	}
+	panic("hxlib: unknown case kind")
+}
+
+// ---------------------------------------------------------------- generators
+
+func be32(v *big.Int) []byte { return v.FillBytes(make([]byte, 32)) }
+
+func randScalar(r *Rng) *big.Int { return new(big.Int).SetBytes(r.Bytes(32)) }
+
+// a random valid G1 point: k*G, or (x, sqrt(x^3+3)) found by trial
+func genG1(r *Rng) []byte {
+	if r.Bool() {
+		k := randScalar(r)
+		return new(cloudflare.G1).ScalarBaseMult(k).Marshal()
+	}
+	for {
+		var x, y, rhs fp.Element
+		x.SetBytes(r.Bytes(32))
+		rhs.Square(&x).Mul(&rhs, &x)
+		var three fp.Element
+		three.SetUint64(3)
+		rhs.Add(&rhs, &three)
+		if y.Sqrt(&rhs) == nil {
+			continue
+		}
+		if r.Bool() {
+			y.Neg(&y)
+		}
+		xb, yb := x.Bytes(), y.Bytes()
+		return append(xb[:], yb[:]...)
+	}
+}
+
+func genG2(r *Rng) []byte {
+	return new(cloudflare.G2).ScalarBaseMult(randScalar(r)).Marshal()
+}
+
+// a point on the twist that is (almost surely) NOT in the order-r subgroup
+func genG2OffSubgroup(r *Rng) []byte {
+	var b2 gnarkbn.E2
+	b2.A0.SetUint64(9)
+	b2.A1.SetUint64(1)
+	b2.Inverse(&b2)
+	var three fp.Element
+	three.SetUint64(3)
+	b2.MulByElement(&b2, &three)
+	for {
+		var x, y, rhs gnarkbn.E2
+		x.A0.SetBytes(r.Bytes(32))
+		x.A1.SetBytes(r.Bytes(32))
+		rhs.Square(&x).Mul(&rhs, &x).Add(&rhs, &b2)
+		if rhs.Legendre() != 1 {
+			continue
+		}
+		y.Sqrt(&rhs)
+		xa1, xa0, ya1, ya0 := x.A1.Bytes(), x.A0.Bytes(), y.A1.Bytes(), y.A0.Bytes()
+		out := append([]byte{}, xa1[:]...)
+		out = append(out, xa0[:]...)
+		out = append(out, ya1[:]...)
+		return append(out, ya0[:]...)
+	}
+}
+
+// damage a 32-byte coordinate at offset off
+func corruptCoord(r *Rng, buf []byte, off int) {
+	switch r.Intn(4) {
+	case 0:
+		copy(buf[off:], be32(bnP)) // = p
+	case 1:
+		copy(buf[off:], be32(new(big.Int).Add(bnP, big.NewInt(int64(1+r.Intn(5)))))) // p + small
+	case 2:
+		for i := 0; i < 32; i++ {
+			buf[off+i] = 0xff
+		}
+	default:
+		v := new(big.Int).Add(new(big.Int).SetBytes(buf[off:off+32]), bnP) // same residue, non-canonical
+		if v.BitLen() <= 256 {
+			copy(buf[off:], be32(v))
+		} else {
+			buf[off] = 0xff
+		}
+	}
+}
+
+func genG1Any(r *Rng) []byte {
+	switch r.Intn(10) {
+	case 0:
+		return make([]byte, 64) // infinity
+	case 1:
+		p := genG1(r) // off curve: y + 1
+		p[63] ^= 1
+		return p
+	case 2:
+		p := genG1(r)
+		corruptCoord(r, p, 32*r.Intn(2))
+		return p
+	case 3:
+		return r.Bytes(64)
+	case 4:
+		p := make([]byte, 64) // (1, 2) the generator, or (1, p-2)
+		p[31] = 1
+		if r.Bool() {
+			p[63] = 2
+		} else {
+			copy(p[32:], be32(new(big.Int).Sub(bnP, big.NewInt(2))))
+		}
+		return p
+	}
+	return genG1(r)
+}
+
+func genG2Any(r *Rng) []byte {
+	switch r.Intn(10) {
+	case 0:
+		return make([]byte, 128)
+	case 1:
+		p := genG2(r)
+		p[127] ^= 1
+		return p
+	case 2:
+		p := genG2(r)
+		corruptCoord(r, p, 32*r.Intn(4))
+		return p
+	case 3:
+		return r.Bytes(128)
+	case 4, 5:
+		return genG2OffSubgroup(r)
+	}
+	return genG2(r)
+}
+
+func blakeInput(rounds uint32, h, m []byte, t0, t1 uint64, final byte) []byte {
+	in := make([]byte, 213)
+	binary.BigEndian.PutUint32(in, rounds)
+	copy(in[4:], h)
+	copy(in[68:], m)
+	binary.LittleEndian.PutUint64(in[196:], t0)
+	binary.LittleEndian.PutUint64(in[204:], t1)
+	in[212] = final
+	return in
+}
+
+func ones(n int) []byte { return bytes.Repeat([]byte{0xff}, n) }
+
+func pickU64(r *Rng) uint64 {
+	switch r.Intn(5) {
+	case 0:
+		return 0
+	case 1:
+		return ^uint64(0)
+	case 2:
+		return 128
+	}
+	return r.U64()
+}
+
+func words(r *Rng, n int) Sx {
+	out := make([]Sx, n)
+	for i := range out {
+		out[i] = U(pickU64(r))
+	}
+	return L(out...)
+}
+
+func gen(r0 *Rng, tier string, emit func(Sx)) {
+	r := NewRng(r0.U64())
+	thorough := tier == "thorough"
+	scale := 1
+	if thorough {
+		scale = 12
+	}
+
+	// ---- BLAKE2b: boundary round counts x {random, all-ones} x t x final
+	for _, rounds := range []uint32{0, 1, 9, 10, 11, 12, 13, 20, 21, 100} {
+		for _, final := range []byte{0, 1} {
+			emit(L(I(0), B(blakeInput(rounds, r.Bytes(64), r.Bytes(128), pickU64(r), pickU64(r), final))))
+			emit(L(I(0), B(blakeInput(rounds, ones(64), ones(128), ^uint64(0), ^uint64(0), final))))
+			emit(L(I(0), B(blakeInput(rounds, make([]byte, 64), make([]byte, 128), 0, 0, final))))
+		}
+	}
+	for i := 0; i < 150*scale; i++ {
+		rounds := uint32(r.Intn(64))
+		if r.Chance(1, 10) {
+			rounds = uint32(r.Intn(700))
+		}
+		emit(L(I(0), B(blakeInput(rounds, r.Bytes(64), r.Bytes(128), pickU64(r), pickU64(r), byte(r.Intn(2))))))
+	}
+	bigRounds := []uint32{1 << 12, 1<<12 + 7, 1 << 16}
+	if thorough {
+		bigRounds = append(bigRounds, 1<<16+1, 1<<18+3, 1<<20)
+	}
+	for _, rounds := range bigRounds {
+		emit(L(I(0), B(blakeInput(rounds, r.Bytes(64), r.Bytes(128), r.U64(), r.U64(), byte(r.Intn(2))))))
+	}
+	// input validation: wrong lengths, bad final flag
+	for _, n := range []int{0, 1, 4, 212, 214, 426} {
+		emit(L(I(0), B(r.Bytes(n))))
+	}
+	for i := 0; i < 20*scale; i++ {
+		in := blakeInput(uint32(r.Intn(13)), r.Bytes(64), r.Bytes(128), r.U64(), r.U64(), byte(2+r.Intn(254)))
+		if r.Chance(1, 3) {
+			in = r.Bytes(r.Intn(300))
+		}
+		emit(L(I(0), B(in)))
+	}
+	// the generic function directly: raw flag words, 64-bit round counts
+	for i := 0; i < 40*scale; i++ {
+		flag := pickU64(r)
+		rounds := uint64(r.Intn(40))
+		switch r.Intn(8) {
+		case 0:
+			rounds = 1<<63 + uint64(r.Intn(3)) // int(rounds) < 0: no rounds at all
+		case 1:
+			rounds = ^uint64(0)
+		}
+		emit(L(I(1), words(r, 8), words(r, 16), U(pickU64(r)), U(pickU64(r)), U(flag), U(rounds)))
+	}
+
+	// ---- BN254 decoding
+	for i := 0; i < 120*scale; i++ {
+		b := genG1Any(r)
+		if r.Chance(1, 12) {
+			b = b[:r.Intn(64)] // short
+		} else if r.Chance(1, 12) {
+			b = append(b, r.Bytes(1+r.Intn(5))...) // trailing bytes are ignored by Unmarshal
+		}
+		emit(L(I(5), B(b)))
+	}
+	for i := 0; i < 40*scale; i++ {
+		b := genG2Any(r)
+		if r.Chance(1, 12) {
+			b = b[:r.Intn(128)]
+		}
+		emit(L(I(6), B(b)))
+	}
+	// ---- BN254 add (result also against the Coq model)
+	for i := 0; i < 60*scale; i++ {
+		a, b := genG1Any(r), genG1Any(r)
+		switch r.Intn(8) {
+		case 0:
+			b = cp(a) // doubling
+		case 1: // P + (-P)
+			b = cp(a)
+			y := new(big.Int).SetBytes(a[32:])
+			if y.Sign() != 0 && y.Cmp(bnP) < 0 {
+				copy(b[32:], be32(new(big.Int).Sub(bnP, y)))
+			}
+		}
+		in := append(cp(a), b...)
+		if r.Chance(1, 10) {
+			in = in[:r.Intn(len(in))] // short input is zero-padded
+		} else if r.Chance(1, 10) {
+			in = append(in, r.Bytes(7)...)
+		}
+		emit(L(I(2), B(in)))
+	}
+	// ---- BN254 scalar multiplication
+	orderPlus := func(d int64) *big.Int { return new(big.Int).Add(bnOrder, big.NewInt(d)) }
+	smallScalars := 24 * scale
+	for i := 0; i < smallScalars; i++ {
+		k := big.NewInt(int64(r.Intn(1 << 8)))
+		if i < 4 {
+			k = big.NewInt(int64(i))
+		}
+		emit(L(I(3), B(append(genG1Any(r), be32(k)...))))
+	}
+	bigScalars := []*big.Int{bnOrder, new(big.Int).SetBytes(ones(32))}
+	if thorough {
+		bigScalars = append(bigScalars, orderPlus(1), orderPlus(-1), randScalar(r), randScalar(r), randScalar(r), new(big.Int).Lsh(big.NewInt(1), 255))
+	}
+	for _, k := range bigScalars {
+		emit(L(I(3), B(append(genG1(r), be32(k)...))))
+	}
+	// full-size scalars, three-way differential only
+	for i := 0; i < 150*scale; i++ {
+		var k *big.Int
+		switch r.Intn(6) {
+		case 0:
+			k = orderPlus(int64(r.Intn(5)) - 2)
+		case 1:
+			k = new(big.Int).SetBytes(ones(32))
+		case 2:
+			k = new(big.Int).Lsh(big.NewInt(1), uint(r.Intn(256)))
+		default:
+			k = randScalar(r)
+		}
+		in := append(genG1Any(r), be32(k)...)
+		if r.Chance(1, 10) {
+			in = in[:r.Intn(len(in))]
+		}
+		emit(L(I(11), B(in)))
+	}
+	// ---- BN254 pairing (slow: few cases)
+	emit(L(I(4), B(nil)))
+	for i := 0; i < 6*scale; i++ { // e(aG, bH) * e(-abG, H) = 1
+		a, b := randScalar(r), randScalar(r)
+		ab := new(big.Int).Mul(a, b)
+		p1 := new(cloudflare.G1).ScalarBaseMult(a)
+		q1 := new(cloudflare.G2).ScalarBaseMult(b)
+		p2 := new(cloudflare.G1).ScalarBaseMult(ab.Mod(ab, bnOrder))
+		p2.Neg(p2)
+		q2 := new(cloudflare.G2).ScalarBaseMult(big.NewInt(1))
+		in := append(append(append(p1.Marshal(), q1.Marshal()...), p2.Marshal()...), q2.Marshal()...)
+		if i%3 == 2 { // break the relation: result false
+			in = append(append(append(p1.Marshal(), q1.Marshal()...), p1.Marshal()...), q2.Marshal()...)
+		}
+		emit(L(I(4), B(in)))
+	}
+	for i := 0; i < 30*scale; i++ {
+		n := 1 + r.Intn(3)
+		var in []byte
+		for j := 0; j < n; j++ {
+			if r.Chance(3, 4) {
+				in = append(in, genG1(r)...)
+			} else {
+				in = append(in, genG1Any(r)...)
+			}
+			if r.Chance(3, 4) {
+				in = append(in, genG2(r)...)
+			} else {
+				in = append(in, genG2Any(r)...)
+			}
+		}
+		if r.Chance(1, 10) {
+			in = in[:len(in)-1-r.Intn(100)] // not a multiple of 192
+		}
+		emit(L(I(4), B(in)))
+	}
+
+	// ---- KZG
+	genKzg(r, thorough, emit)
+}
+
 func main() {
-	fmt.Println(blake2b.VerifGetFlags())
-	var b kzg4844.Blob
-	c, err := kzg4844.BlobToCommitment(&b)
-	fmt.Printf("%x %v\n", c, err)
-	_, err = ckzg4844.BlobToKZGCommitment((*ckzg4844.Blob)(&b))
-	fmt.Println(err)
+	Main(Family{
+		ID: "C05",
+		Rule: "BLAKE2b F: precompile inputs with rounds in {0,1,9,10,11,12,13,20,21,100} x {random, all-ones, zero h/m/t} x final 0/1, random rounds < 700, rounds 2^12, 2^12+7, 2^16 (thorough: up to 2^20), wrong lengths, final flag bytes 2..255, and fGeneric called directly with raw flag words and 64-bit round counts (>= 2^63 included). " +
+			"BN254: G1/G2 decoding of valid points (k*G and x -> sqrt), infinity, off-curve, coordinates = p / p+small / all-ones / residue+p, twist points outside the subgroup, random bytes, short and over-long buffers; Add incl. doubling and P+(-P), short/long inputs; ScalarMul with scalars 0..3, < 2^8, order, 2^256-1 against the model (thorough: order+-1, random 256-bit, 2^255) and full-size scalars three-way only; Pairing: empty input, bilinearity relations that hold / are broken, random pairs with malformed members, lengths not a multiple of 192. " +
+			"KZG: valid (commitment, z, y, proof) and blob proofs computed from random and sparse blobs, then corrupted: scalars = r, r+1, 2^256-1, compressed points with the compression bit clear, infinity bit with garbage, x >= p, wrong sign bit, swapped proof/commitment, blob with an element = r. " +
+			"Non-trivial: a case the implementation accepted (a result was produced and compared), or any KZG case when two backends ran; distinct = distinct case line.",
+		Gen: gen,
+		Run: run,
+	})
 }
